@@ -145,6 +145,16 @@ def replay_concat(d):
     return got == want, "cigar %s: concat_gapless_blocks -> %s, SAM walker -> %s" % (cig, got, want)
 
 
+def replay_alignment_info(d):
+    import types
+    ai = native.repo_import("src/alignment_info.py")
+    cig = [tuple(x) for x in d["inputs"]["cigar"]]
+    o = ai.AlignmentInfo(types.SimpleNamespace(reference_start=d["inputs"]["ref_start"], cigartuples=list(cig)))
+    want = sam_walker(d["inputs"]["ref_start"], cig)
+    got = (o.read_exons, o.read_blocks, o.cigar_blocks)
+    return tuple(got) == tuple(want), "cigar %s: AlignmentInfo -> %s, SAM walker -> %s" % (cig, got, want)
+
+
 def replay_cigar(d):
     com = native.repo_import("src/common.py")
     cig = [tuple(x) for x in d["inputs"]["cigar"]]
@@ -155,11 +165,12 @@ def replay_cigar(d):
 
 @bounded("C16.cigar_exhaustive", ["C16"], note="get_read_blocks against an independent SAM walker on ALL CIGAR strings of length <= 4 "
          "(thorough: <= 6) over the operations {M,I,D,N,S,H,=,X} with lengths {1,2} (thorough: {1,2,3} up to length 5), plus "
-         "seeded random long CIGARs; also checks exons are ordered and non-empty; the second walk, concat_gapless_blocks + correct_bam_coords over the "
+         "seeded random long CIGARs; also checks exons are ordered and non-empty; the constructor of AlignmentInfo (the walk as the pipeline makes it) gives the same three lists; the second walk, concat_gapless_blocks + correct_bam_coords over the "
          "blocks pysam reports, gives the same exons on every CIGAR with clipping at the ends only")
 def c16_exhaustive(tier, rng):
-    import itertools
+    import itertools, types
     com = native.repo_import("src/common.py")
+    ai = native.repo_import("src/alignment_info.py")
     ops = [0, 1, 2, 3, 4, 5, 7, 8]
     lens = [1, 2]
     nmax = 4 if tier == "quick" else 6
@@ -178,6 +189,18 @@ def c16_exhaustive(tier, rng):
                     return {"cases": cases, "bound": "length <= %d" % nmax, "violations": [{
                         "obligation": "C16.cigar_exhaustive", "inputs": {"ref_start": 7, "cigar": cig},
                         "observed": str(got), "required": str(want), "replay_call": "contracts.c_cigar:replay_cigar"}]}
+                # the walk as the pipeline makes it: the constructor of AlignmentInfo on a record with this CIGAR
+                if n == 0:
+                    continue     # a record has at least one operation
+                try:
+                    ai_obj = ai.AlignmentInfo(types.SimpleNamespace(reference_start=7, cigartuples=list(cig)))
+                    got_ai = (ai_obj.read_exons, ai_obj.read_blocks, ai_obj.cigar_blocks)
+                except Exception as e:
+                    got_ai = ("%s: %s" % (type(e).__name__, e),)
+                if tuple(got_ai) != tuple(want):
+                    return {"cases": cases, "bound": "length <= %d" % nmax, "violations": [{
+                        "obligation": "C16.cigar_exhaustive.AlignmentInfo", "inputs": {"ref_start": 7, "cigar": cig},
+                        "observed": str(got_ai), "required": str(want), "replay_call": "contracts.c_cigar:replay_alignment_info"}]}
                 if _valid_clipping(cig):
                     got2 = _concat_walk(com, 7, cig)
                     if got2 != want[0]:
